@@ -379,6 +379,12 @@ MODEL_PARAMS = {
     "WVST": {"n_m": 9.87654321, "K": 3.21098765, "L1v": 1.23456789, "Lv1": 0.87654321},
 }
 MODELS = list(MODEL_PARAMS)
+# a parameter value outside the model's DEFAULT bounds for which the model equations still evaluate
+# (most bounds are (0, inf): a negative value; BET N, GAB K in (0, 1), DA m in (1, 3): above the upper bound)
+OOB_PARAM = {"Henry": ("K", -2.3456789012), "Langmuir": ("n_m", -5.4321098765), "DSLangmuir": ("n_m2", -2.0123456), "TSLangmuir": ("n_m3", -0.987654321),
+             "BET": ("N", 1.23456789), "GAB": ("K", 1.12345678), "Freundlich": ("K", -6.54321098), "DA": ("m", 3.45678912), "DR": ("n_m", -6.987654321),
+             "Quadratic": ("n_m", -2.5432109), "TemkinApprox": ("tht", -0.6123456789), "Virial": ("K", -3.456789012), "Toth": ("n_m", -6.123456789),
+             "JensenSeaton": ("a", -4.56789012), "FHVST": ("n_m", -8.7654321), "WVST": ("n_m", -9.87654321)}
 # the parameter set to exactly zero in the magnitude class "zero" (a value the model's default bounds include)
 ZERO_PARAM = {"Henry": "K", "Langmuir": "K", "DSLangmuir": "K2", "TSLangmuir": "K3", "BET": "C", "GAB": "C", "Freundlich": "K",
               "DA": "n_m", "DR": "n_m", "Quadratic": "Kb", "TemkinApprox": "tht", "Virial": "C", "Toth": "K", "JensenSeaton": "c",
@@ -393,6 +399,7 @@ MAGNITUDES = {
     "huge": {"params": [1.2345678901234e+06, 9.8765432109876e+11, 3.1415926535898e+09, 2.7182818284590e+07],
              "prange": (1.0132512345678e+05, 9.8765432109876e+11), "lrange": (1.2345678901234e+06, 4.5678901234567e+09), "rmse": 1.2345678901234e+03},
     "zero": {"params": [1.0], "prange": (0.0, 0.912345678901), "lrange": (0.0, 4.5678901234), "rmse": 0.0},
+    "out_of_bounds": {"params": [1.0], "prange": (0.0123456789, 0.912345678901), "lrange": (0.23456789012, 4.5678901234), "rmse": 0.0123456789012},
     "many_digits": {"params": [1.0 / 3.0, 2.0 / 7.0, 0.1 + 0.2, 1.0 / 9.0],
                     "prange": (1.0 / 300.0, 2.0 / 3.0), "lrange": (1.0 / 7.0, 22.0 / 7.0), "rmse": 1.0 / 3000.0},
 }
@@ -565,6 +572,10 @@ class Builder:
         kw = {}
         name, props = MATERIALS[row["matc"]][rep % 2]
         kw["material"] = dict(name=name, **copy.deepcopy(props)) if props else name
+        if row.get("reg", "none") != "none":
+            # the isotherm carries its own Material instance (the importers meet a same-named registered one later)
+            from pygaps.core.material import Material
+            kw["material"] = Material(name, **copy.deepcopy(props))
         kw["adsorbate"] = pick("ads", ADSORBATES[row["ads"]])
         tc = row["tclass"]
         kw["temperature"] = pick("temp", TEMPS[tc])
@@ -637,6 +648,9 @@ class Builder:
                 # exactly zero, as a fit may leave it (set on the finished model: the original must not depend on how
                 # the constructor treats the value): a float 0.0, or the integer 0
                 m.params[ZERO_PARAM[name]] = f(0.0) if (how == "as_fitted" or row["rep"] % 2 == 0) else 0
+            if row.get("mag") == "out_of_bounds":
+                # as a fit with wider user bounds leaves it (assigned on the finished model, like the fit does)
+                m.params[OOB_PARAM[name][0]] = f(OOB_PARAM[name][1])
             if how == "as_fitted":
                 m.__init_parameters__(dict(kw))
             return pygaps.ModelIsotherm(model=m, branch=branch, **kw)
@@ -725,12 +739,19 @@ def roundtrip(iso, row, tmpdir, again=False):
         res.update(stage="export", exc=exc_class(e), pg=isinstance(e, pgError), msg=str(e)[:160])
         _rm(path)
         return res
+    import pygaps
+    saved = list(pygaps.MATERIAL_LIST)
     try:
+        reg = registered_material(iso, row.get("reg", "none"))
+        if reg is not None:
+            pygaps.MATERIAL_LIST.append(reg)
         res["iso2"] = imp(path if use_file else doc)
     except Exception as e:
         res.update(stage="import", exc=exc_class(e), pg=isinstance(e, pgError), msg=str(e)[:160])
         _rm(path)
         return res
+    finally:
+        pygaps.MATERIAL_LIST[:] = saved
     if again and fmt != "xl":
         try:
             res["doc2"] = export(res["iso2"], None)
@@ -741,6 +762,32 @@ def roundtrip(iso, row, tmpdir, again=False):
             res["doc2"] = "raise:" + exc_class(e)
     _rm(path)
     return res
+
+
+REGISTRY_ONLY_KEYS = {"legacy_batch": "2019-A", "bet_area": 1234.5}
+
+
+def registered_material(iso, state):
+    """The same-named material the session has registered at import time (never the isotherm's own instance)."""
+    import copy
+    from pygaps.core.material import Material
+    if state in ("none", "na", None):
+        return None
+    own = copy.deepcopy(dict(iso.material.properties))
+    if state == "same_equal":
+        return Material(iso.material.name, **own)
+    other = {}
+    for k, v in own.items():
+        if isinstance(v, bool):
+            other[k] = not v
+        elif isinstance(v, int):
+            other[k] = v + 7
+        elif isinstance(v, float):
+            other[k] = v * 0.5 + 1.0
+        else:
+            other[k] = "older " + str(v)
+    other.update(REGISTRY_ONLY_KEYS)
+    return Material(iso.material.name, **other)
 
 
 def _rm(path):
